@@ -117,6 +117,8 @@ class Func(object):
                     self._expanded = Inliner(self.index).expand(self)
                 except RecursionError:
                     self._expanded = self.raw_node
+            if not os.environ.get('VERIF_NO_FOLD'):
+                self._expanded = fold_return_temps(self._expanded)
         return self._expanded
 
     @property
@@ -531,6 +533,91 @@ class Index(object):
                 txt = fh.read()
         self.consulted.add(relpath)
         return txt
+
+
+def fold_return_temps(fnode):
+    """`t = EXPR` immediately followed by `return t`, where ``t`` is a plain local with no other use, is `return EXPR`.
+    Rules read what a function returns off its return statements; a temporary introduced (or removed) in front of the
+    return must not change what they see.  Returns ``fnode`` itself when nothing folds (a copy otherwise)."""
+    import copy
+    loads, stores = {}, {}
+    for n in ast.walk(fnode):
+        if isinstance(n, ast.Name):
+            d = loads if isinstance(n.ctx, ast.Load) else stores
+            d[n.id] = d.get(n.id, 0) + 1
+    params = {a.arg for a in fnode.args.posonlyargs + fnode.args.args + fnode.args.kwonlyargs}
+
+    def shape(a, r):
+        return isinstance(a, ast.Assign) and len(a.targets) == 1 and isinstance(a.targets[0], ast.Name) and \
+            isinstance(r, ast.Return) and isinstance(r.value, ast.Name) and r.value.id == a.targets[0].id
+    # a name qualifies when ALL its uses are such pairs (one temporary name may serve several returns)
+    pairs = {}
+
+    def count(stmts):
+        for i in range(len(stmts) - 1):
+            if shape(stmts[i], stmts[i + 1]):
+                pairs[stmts[i + 1].value.id] = pairs.get(stmts[i + 1].value.id, 0) + 1
+        for st in stmts:
+            for fld in ('body', 'orelse', 'finalbody'):
+                seq = getattr(st, fld, None)
+                if isinstance(seq, list) and seq and isinstance(seq[0], ast.stmt) and not isinstance(st, (ast.FunctionDef, ast.AsyncFunctionDef, ast.ClassDef)):
+                    count(seq)
+            if isinstance(st, ast.Try):
+                for h in st.handlers:
+                    count(h.body)
+    count(fnode.body)
+
+    def foldable(a, r):
+        if not shape(a, r):
+            return False
+        t = r.value.id
+        return t not in params and loads.get(t, 0) == pairs.get(t, 0) == stores.get(t, 0)
+
+    def any_fold(stmts):
+        for i in range(len(stmts) - 1):
+            if foldable(stmts[i], stmts[i + 1]):
+                return True
+        for st in stmts:
+            for fld in ('body', 'orelse', 'finalbody'):
+                seq = getattr(st, fld, None)
+                if isinstance(seq, list) and seq and isinstance(seq[0], ast.stmt) and not isinstance(st, (ast.FunctionDef, ast.AsyncFunctionDef, ast.ClassDef)):
+                    if any_fold(seq):
+                        return True
+            if isinstance(st, ast.Try):
+                for h in st.handlers:
+                    if any_fold(h.body):
+                        return True
+        return False
+    if not any_fold(fnode.body):
+        return fnode
+    new = copy.deepcopy(fnode)
+
+    def fold(stmts):
+        out = []
+        i = 0
+        while i < len(stmts):
+            st = stmts[i]
+            if i + 1 < len(stmts) and foldable(st, stmts[i + 1]):
+                r = stmts[i + 1]
+                nr = ast.copy_location(ast.Return(value=st.value), r)
+                for attr in ('_orig_lineno',):
+                    if hasattr(r, attr):
+                        setattr(nr, attr, getattr(r, attr))
+                out.append(nr)
+                i += 2
+                continue
+            for fld in ('body', 'orelse', 'finalbody'):
+                seq = getattr(st, fld, None)
+                if isinstance(seq, list) and seq and isinstance(seq[0], ast.stmt) and not isinstance(st, (ast.FunctionDef, ast.AsyncFunctionDef, ast.ClassDef)):
+                    setattr(st, fld, fold(seq))
+            if isinstance(st, ast.Try):
+                for h in st.handlers:
+                    h.body = fold(h.body)
+            out.append(st)
+            i += 1
+        return out
+    new.body = fold(new.body)
+    return new
 
 
 def dotted_chain(node):
